@@ -3,7 +3,8 @@
 
   Go code transcribed here:
     internal/server/hover.go            Hover, positionInRange, findElementAtPosition,
-                                        getPayeeOrDescription, estimatePayeeRange, findTagAtPosition,
+                                        getPayeeOrDescription, (*columnMapper).payeeRange (the walk over the
+                                        header line: HL/Model/PayeeRange.lean), estimatePayeeRange, findTagAtPosition,
                                         buildHoverContentWithTransactions and the six builders,
                                         countPostingsForAccountInTransactions, forEachTag,
                                         countTagUsage, countTagValueUsage, collectTagValues,
@@ -41,6 +42,7 @@
 -/
 import HL.Model.Ast
 import HL.Model.Text
+import HL.Model.PayeeRange
 namespace HL.Hover
 open HL HL.Ast
 
@@ -231,10 +233,20 @@ def Element.rng : Element → Rng
 def payeeOrDescription (tx : Transaction) : Bytes :=
   if tx.payee != [] then tx.payee else tx.description
 
-/-- `estimatePayeeRange`: one column after the date, two more when a status mark is present. -/
+/-- `estimatePayeeRange`: one column after the date, two more when a status mark is present (the
+    whole answer of the tree as pinned; now the fallback when the mapper has no text for the line). -/
 def estimatePayeeRange (tx : Transaction) (payee : Bytes) : Rng :=
   let startCol := tx.date.range.stop.col + 1 + (if tx.status != .none then 2 else 0)
   ⟨⟨tx.date.range.start.line, startCol, 0⟩, ⟨tx.date.range.start.line, startCol + runeLen payee, 0⟩⟩
+
+/-- `(*columnMapper).payeeRange` (repo_patches/fix-payee-range.diff): the description is looked
+    up on the header line of the document (`lns`: the lines of the mapper); the payee is a
+    trimmed prefix of the description.  Without that line, or when the line ends before a
+    description: the estimate. -/
+def payeeRange (lns : List HL.Text.Txt) (tx : Transaction) (payee : Bytes) : Rng :=
+  match HL.PayeeRange.payeeStart lns tx.date.range.start.line tx.date.range.stop.col with
+  | some col => ⟨⟨tx.date.range.start.line, col, 0⟩, ⟨tx.date.range.start.line, col + runeLen payee, 0⟩⟩
+  | none => estimatePayeeRange tx payee
 
 /-- The element reported for a tag whose range contains the cursor: the name part up to and
     including the colon column; after it the value, whose range is measured back from the end
@@ -282,32 +294,33 @@ def findInPostings (ps : List Posting) (p : LspPos) : Option Element :=
         | some e => some e
         | none => findInPostings ps p
 
-/-- `payee != "" && positionInRange(pos, estimatePayeeRange(tx, payee))`. -/
-def payeeElement (tx : Transaction) (p : LspPos) : Option Element :=
+/-- `payee != "" && positionInRange(pos, mapper.payeeRange(tx, payee))`. -/
+def payeeElement (lns : List HL.Text.Txt) (tx : Transaction) (p : LspPos) : Option Element :=
   if payeeOrDescription tx != [] then
-    if positionInRange p (estimatePayeeRange tx (payeeOrDescription tx)) then
-      some (.payee (estimatePayeeRange tx (payeeOrDescription tx)) (payeeOrDescription tx) tx)
+    if positionInRange p (payeeRange lns tx (payeeOrDescription tx)) then
+      some (.payee (payeeRange lns tx (payeeOrDescription tx)) (payeeOrDescription tx) tx)
     else none
   else none
 
 /-- One iteration of the loop of `findElementAtPosition`. -/
-def findInTransaction (tx : Transaction) (p : LspPos) : Option Element :=
+def findInTransaction (lns : List HL.Text.Txt) (tx : Transaction) (p : LspPos) : Option Element :=
   if positionInRange p tx.date.range then some (.date tx.date.range tx)
   else
-    match payeeElement tx p with
+    match payeeElement lns tx p with
     | some e => some e
     | none =>
       match findInComments tx.comments p with
       | some e => some e
       | none => findInPostings tx.postings p
 
-/-- `findElementAtPosition`: first transaction, in document order, with a match. -/
-def findElement (txs : List Transaction) (p : LspPos) : Option Element :=
+/-- `findElementAtPosition`: first transaction, in document order, with a match (`lns`: the
+    mapper of the text the transactions were parsed from). -/
+def findElement (lns : List HL.Text.Txt) (txs : List Transaction) (p : LspPos) : Option Element :=
   match txs with
   | [] => none
-  | tx :: txs => match findInTransaction tx p with
+  | tx :: txs => match findInTransaction lns tx p with
     | some e => some e
-    | none => findElement txs p
+    | none => findElement lns txs p
 
 /-! ### Aggregates -/
 
@@ -427,7 +440,7 @@ deriving Repr, Inhabited, DecidableEq
     the requesting document, `lns` its lines. -/
 def hoverR (ws perUri : Option Resolved) (doc : Journal) (lns : List HL.Text.Txt) (p : LspPos) :
     Option HoverResult :=
-  match findElement doc.transactions p with
+  match findElement lns doc.transactions p with
   | none => none
   | some e =>
     let txs := hoverTransactions ws perUri doc
